@@ -311,10 +311,10 @@ theorem and_pred_pow2 (x m : Nat) (hm : 0 < m) (h : m &&& (m - 1) = 0) : x &&& (
 theorem mod_of_lt_two_mul (a d : Nat) (h1 : d ≤ a) (h2 : a < 2 * d) : a % d = a - d := by
   rw [Nat.mod_eq_sub_mod h1, Nat.mod_eq_of_lt (by omega)]
 
-/-- the case list built by `mod_add`: keys `mod+a … mod+a+n-1` map to `a … a+n-1` -/
+/-- the case list built by `mod_add`: keys `mod+a … mod+a+n-1` map to `a % mod … (a+n-1) % mod` -/
 theorem switchValue_modCases (t m : Nat) (rest : List (Key × Nat)) : ∀ (n a : Nat),
-    switchValue t ((List.range' a n).map (fun i => ((some [m + i] : Key), i)) ++ rest) =
-      if m + a ≤ t ∧ t < m + a + n then t - m else switchValue t rest := by
+    switchValue t ((List.range' a n).map (fun i => ((some [m + i] : Key), i % m)) ++ rest) =
+      if m + a ≤ t ∧ t < m + a + n then (t - m) % m else switchValue t rest := by
   intro n
   induction n with
   | zero => intro a; simp; omega
@@ -324,7 +324,8 @@ theorem switchValue_modCases (t m : Nat) (rest : List (Key × Nat)) : ∀ (n a :
       List.contains_cons, List.contains_nil, Bool.or_false, beq_iff_eq]
     by_cases h : t = m + a
     · have : m + a ≤ t ∧ t < m + a + (n + 1) := by omega
-      rw [if_pos h, if_pos this]; omega
+      rw [if_pos h, if_pos this]
+      congr 1; omega
     · rw [if_neg h, ih (a + 1)]
       by_cases h2 : m + a ≤ t ∧ t < m + a + (n + 1)
       · rw [if_pos h2, if_pos (by omega)]
@@ -332,7 +333,7 @@ theorem switchValue_modCases (t m : Nat) (rest : List (Key × Nat)) : ∀ (n a :
 
 theorem modAdd_nonpow2 (sig mod incr maxIncr : Nat) (h : mod &&& (mod - 1) ≠ 0) :
     modAdd sig mod incr maxIncr =
-      if mod ≤ sig + incr ∧ sig + incr < mod + maxIncr then sig + incr - mod else sig + incr := by
+      if mod ≤ sig + incr ∧ sig + incr < mod + maxIncr then (sig + incr - mod) % mod else sig + incr := by
   unfold modAdd
   rw [if_neg h, List.range_eq_range', switchValue_modCases]
   simp [switchValue, keyMatches]
